@@ -291,6 +291,90 @@ func (m *mach) builtinModel(fn *ssa.Function, args []mv) (mv, bool) {
 				return int64(unicode.ToUpper(rune(r))), true
 			case "ToLower":
 				return int64(unicode.ToLower(rune(r))), true
+			case "ToTitle":
+				return int64(unicode.ToTitle(rune(r))), true
+			case "SimpleFold":
+				return int64(unicode.SimpleFold(rune(r))), true
+			case "IsNumber":
+				return unicode.IsNumber(rune(r)), true
+			case "IsSymbol":
+				return unicode.IsSymbol(rune(r)), true
+			case "IsPrint":
+				return unicode.IsPrint(rune(r)), true
+			case "IsGraphic":
+				return unicode.IsGraphic(rune(r)), true
+			case "IsMark":
+				return unicode.IsMark(rune(r)), true
+			case "IsTitle":
+				return unicode.IsTitle(rune(r)), true
+			}
+		}
+		// unicode.Is(table, r) / unicode.In(r, tables...) on the package's own tables (named by their symbol)
+		table := func(v mv) *unicode.RangeTable {
+			if p, ok := v.(*mv); ok && p != nil {
+				v = *p
+			}
+			sy, ok := v.(*mSym)
+			if !ok {
+				return nil
+			}
+			n := strings.TrimPrefix(strings.TrimPrefix(sy.name, "*"), "unicode.")
+			for _, mp := range []map[string]*unicode.RangeTable{unicode.Scripts, unicode.Categories, unicode.Properties} {
+				if t := mp[n]; t != nil {
+					return t
+				}
+			}
+			switch n {
+			case "Letter":
+				return unicode.Letter
+			case "Digit":
+				return unicode.Digit
+			case "Upper":
+				return unicode.Upper
+			case "Lower":
+				return unicode.Lower
+			case "Space":
+				return unicode.Space
+			case "Punct":
+				return unicode.Punct
+			case "Number":
+				return unicode.Number
+			case "Symbol":
+				return unicode.Symbol
+			case "Mark":
+				return unicode.Mark
+			case "Title":
+				return unicode.Title
+			}
+			return nil
+		}
+		switch fn.Name() {
+		case "Is":
+			if r, ok := args[1].(int64); ok && len(args) == 2 {
+				if t := table(args[0]); t != nil {
+					return unicode.Is(t, rune(r)), true
+				}
+			}
+		case "In", "IsOneOf":
+			r, okR := args[0].(int64)
+			list := args[1]
+			if fn.Name() == "IsOneOf" {
+				r, okR = args[1].(int64)
+				list = args[0]
+			}
+			if sl, ok := list.(mSlice); ok && okR {
+				var ts []*unicode.RangeTable
+				for _, e := range sl.arr {
+					t := table(e)
+					if t == nil {
+						ts = nil
+						break
+					}
+					ts = append(ts, t)
+				}
+				if ts != nil {
+					return unicode.In(rune(r), ts...), true
+				}
 			}
 		}
 	case strings.HasPrefix(name, "strconv."):
@@ -344,7 +428,10 @@ func (m *mach) builtinModel(fn *ssa.Function, args []mv) (mv, bool) {
 				return strconv.FormatBool(b), true
 			}
 		}
-	case strings.HasPrefix(name, "math."):
+	case strings.HasPrefix(name, "math.") && !strings.HasPrefix(name, "math.bits"):
+		if r, ok := mathHostModel(fn.Name(), args); ok {
+			return r, true
+		}
 		if len(args) == 1 {
 			if x, ok := args[0].(float64); ok {
 				switch fn.Name() {
@@ -467,6 +554,10 @@ func (m *mach) builtinModel(fn *ssa.Function, args []mv) (mv, bool) {
 		if is, known := m.errorsIs(args[0], args[1], 0); known {
 			return is, true
 		}
+	case name == "errors.As" && len(args) == 2:
+		if as, known := m.errorsAs(args[0], args[1], 0); known {
+			return as, true
+		}
 	case name == "errors.Unwrap" && len(args) == 1:
 		if ei, ok := args[0].(mIface); ok && ei.t != nil {
 			if _, isSym := ei.v.(*mSym); !isSym {
@@ -477,7 +568,11 @@ func (m *mach) builtinModel(fn *ssa.Function, args []mv) (mv, bool) {
 			}
 		}
 	case name == "errors.New" || name == "fmt.Errorf":
-		return mIface{t: types.NewPointer(types.Universe.Lookup("error").Type()), v: &mSym{name: "error(" + mRender(args[0]) + ")", nonNil: true}}, true
+		es := &mSym{name: "error(" + mRender(args[0]) + ")", nonNil: true}
+		if name == "errors.New" {
+			es.msg = args[0]
+		}
+		return mIface{t: types.NewPointer(types.Universe.Lookup("error").Type()), v: es}, true
 	case name == "fmt.Sprintf" || name == "fmt.Sprint":
 		// constant arguments: the host result; anything symbolic: a symbol
 		var goArgs []interface{}
@@ -775,7 +870,17 @@ func (m *mach) builderModel(name string, args []mv) (mv, bool) {
 		return mNil, true
 	case "Grow":
 		return mNil, true
+	case "Write":
+		if bs, ok := mBytes(args[1]); ok {
+			b.parts = appendPart(b.parts, string(bs))
+			return mTuple{int64(len(bs)), mNil}, true
+		}
+	case "Bytes":
+		if s, ok := cur().(string); ok {
+			return mByteSlice([]byte(s)), true
+		}
 	}
+	m.abort("%s on a builder/buffer is outside the model", name)
 	return nil, false
 }
 
@@ -856,7 +961,7 @@ var pureStdPkgs = map[string]bool{
 	"bytes": true, "strings": true, "slices": true, "maps": true, "sort": true, "cmp": true,
 	"unicode": true, "unicode/utf8": true, "unicode/utf16": true, "container/list": true,
 	"math/bits": true, "internal/stringslite": true, "internal/bytealg": true, "iter": true,
-	"sync/atomic": true,
+	"sync/atomic": true, "strconv": true,
 }
 
 // concreteArgs: no symbol anywhere in the arguments (a body evaluated on a symbol would only branch on it).
@@ -938,6 +1043,34 @@ func (m *mach) stdAsmModel(fn *ssa.Function, args []mv) (mv, bool) {
 	path := fn.Pkg.Pkg.Path()
 	if path == "sync/atomic" && fn.Blocks == nil {
 		return m.atomicLeaf(fn, args)
+	}
+	if path == "sync/atomic" && fn.Signature.Recv() != nil && strings.Contains(fn.Signature.Recv().Type().String(), "atomic.Value") {
+		// atomic.Value keeps an interface value: the slot of the Value variable holds it directly
+		p, ok := args[0].(*mv)
+		if !ok || p == nil {
+			return nil, false
+		}
+		cur := func() mv {
+			if i, ok := (*p).(mIface); ok {
+				return i
+			}
+			return mNil
+		}
+		switch fn.Name() {
+		case "Load":
+			return cur(), true
+		case "Store":
+			if _, isNil := args[1].(mNilT); isNil {
+				m.throw(m.sym("sync/atomic: store of nil value into Value", nil), "sync/atomic: store of nil value into Value")
+			}
+			*p = args[1]
+			return mNil, true
+		case "Swap":
+			old := cur()
+			*p = args[1]
+			return old, true
+		}
+		return nil, false
 	}
 	if path == "sync" {
 		return m.syncModel(fn, args)
@@ -1189,6 +1322,174 @@ func (m *mach) errorsIs(err, target mv, depth int) (is bool, known bool) {
 					return false, false
 				}
 				if is {
+					return true, true
+				}
+			}
+			return false, true
+		default:
+			return false, false
+		}
+	}
+	return false, true
+}
+
+// mathHostModel: package math on concrete arguments is the host's own math (not repository code).
+func mathHostModel(name string, args []mv) (mv, bool) {
+	fl := func(i int) (float64, bool) {
+		if i >= len(args) {
+			return 0, false
+		}
+		switch x := args[i].(type) {
+		case float64:
+			return x, true
+		}
+		return 0, false
+	}
+	in := func(i int) (int64, bool) {
+		if i >= len(args) {
+			return 0, false
+		}
+		n, ok := args[i].(int64)
+		return n, ok
+	}
+	one := map[string]func(float64) float64{
+		"Abs": math.Abs, "Floor": math.Floor, "Ceil": math.Ceil, "Sqrt": math.Sqrt, "Trunc": math.Trunc, "Round": math.Round,
+		"RoundToEven": math.RoundToEven, "Sin": math.Sin, "Cos": math.Cos, "Tan": math.Tan, "Asin": math.Asin, "Acos": math.Acos,
+		"Atan": math.Atan, "Sinh": math.Sinh, "Cosh": math.Cosh, "Tanh": math.Tanh, "Exp": math.Exp, "Exp2": math.Exp2,
+		"Log": math.Log, "Log2": math.Log2, "Log10": math.Log10, "Log1p": math.Log1p, "Cbrt": math.Cbrt, "Expm1": math.Expm1,
+		"Asinh": math.Asinh, "Acosh": math.Acosh, "Atanh": math.Atanh, "Gamma": math.Gamma, "Erf": math.Erf,
+	}
+	two := map[string]func(float64, float64) float64{
+		"Pow": math.Pow, "Mod": math.Mod, "Max": math.Max, "Min": math.Min, "Hypot": math.Hypot, "Atan2": math.Atan2,
+		"Copysign": math.Copysign, "Remainder": math.Remainder, "Dim": math.Dim, "Nextafter": math.Nextafter,
+	}
+	if f := one[name]; f != nil && len(args) == 1 {
+		if x, ok := fl(0); ok {
+			return f(x), true
+		}
+		return nil, false
+	}
+	if f := two[name]; f != nil && len(args) == 2 {
+		x, ok1 := fl(0)
+		y, ok2 := fl(1)
+		if ok1 && ok2 {
+			return f(x, y), true
+		}
+		return nil, false
+	}
+	switch name {
+	case "IsNaN":
+		if x, ok := fl(0); ok {
+			return math.IsNaN(x), true
+		}
+	case "Signbit":
+		if x, ok := fl(0); ok {
+			return math.Signbit(x), true
+		}
+	case "IsInf":
+		x, ok1 := fl(0)
+		n, ok2 := in(1)
+		if ok1 && ok2 {
+			return math.IsInf(x, int(n)), true
+		}
+	case "NaN":
+		if len(args) == 0 {
+			return math.NaN(), true
+		}
+	case "Inf":
+		if n, ok := in(0); ok {
+			return math.Inf(int(n)), true
+		}
+	case "Float64bits":
+		if x, ok := fl(0); ok {
+			return int64(math.Float64bits(x)), true
+		}
+	case "Float64frombits":
+		if n, ok := in(0); ok {
+			return math.Float64frombits(uint64(n)), true
+		}
+	case "Float32bits":
+		if x, ok := fl(0); ok {
+			return int64(math.Float32bits(float32(x))), true
+		}
+	case "Float32frombits":
+		if n, ok := in(0); ok {
+			return float64(math.Float32frombits(uint32(n))), true
+		}
+	case "Modf":
+		if x, ok := fl(0); ok {
+			a, b := math.Modf(x)
+			return mTuple{a, b}, true
+		}
+	case "Frexp":
+		if x, ok := fl(0); ok {
+			a, b := math.Frexp(x)
+			return mTuple{a, int64(b)}, true
+		}
+	case "Ldexp":
+		x, ok1 := fl(0)
+		n, ok2 := in(1)
+		if ok1 && ok2 {
+			return math.Ldexp(x, int(n)), true
+		}
+	}
+	return nil, false
+}
+
+// errorsAs: errors.As over the machine's error values: the first error in the chain whose dynamic type
+// can be assigned to what target points to is stored there.
+func (m *mach) errorsAs(err, target mv, depth int) (as bool, known bool) {
+	if depth > 16 {
+		return false, false
+	}
+	ti, ok := target.(mIface)
+	if !ok || ti.t == nil {
+		return false, false
+	}
+	pt, ok := ti.t.Underlying().(*types.Pointer)
+	slot, ok2 := ti.v.(*mv)
+	if !ok || !ok2 || slot == nil {
+		return false, false
+	}
+	if _, isNil := err.(mNilT); isNil {
+		return false, true
+	}
+	ei, ok := err.(mIface)
+	if !ok || ei.t == nil {
+		return false, false
+	}
+	want := pt.Elem()
+	if it, isIface := want.Underlying().(*types.Interface); isIface {
+		if types.Implements(ei.t, it) {
+			*slot = ei
+			return true, true
+		}
+	} else if types.Identical(ei.t, want) {
+		*slot = ei.v
+		return true, true
+	}
+	if _, isSym := ei.v.(*mSym); isSym {
+		if es := ei.v.(*mSym); strings.Contains(es.name, "%w") || !strings.HasPrefix(es.name, "error(") {
+			return false, false
+		}
+		return false, true
+	}
+	if f := m.c.lookupMethod(ei.t, "As"); f != nil && f.Blocks != nil {
+		return false, false
+	}
+	if f := m.c.lookupMethod(ei.t, "Unwrap"); f != nil && f.Blocks != nil && f.Signature.Results().Len() == 1 {
+		switch r := m.callFn(nil, f, []mv{ei.v}, nil).(type) {
+		case mNilT:
+			return false, true
+		case mIface:
+			return m.errorsAs(r, target, depth+1)
+		case mSlice:
+			for _, e := range r.arr {
+				as, k := m.errorsAs(e, target, depth+1)
+				if !k {
+					return false, false
+				}
+				if as {
 					return true, true
 				}
 			}
